@@ -118,7 +118,12 @@ class JSONPointer:
         if not RE_ARRAY_INDEX.fullmatch(s):
             return s
 
-        index = int(s)
+        try:
+            index = int(s)
+        except ValueError:
+            # More digits than Python is willing to convert.
+            raise JSONPointerIndexError("index out of range") from None
+
         if index < self.min_int_index or index > self.max_int_index:
             raise JSONPointerIndexError("index out of range")
         return index
